@@ -135,10 +135,11 @@ check(
 check(
     "C04",
     "other",
-    "solver-chosen fault schedules replayed end to end: after an edit, run 2 is executed by the real mypy command with the metadata-store classes wrapped from outside (vf/shim/sitecustomize.py, guarded by PYTHON_MYPY_VERIF=1); the schedule - the store operation before which the process is killed (os._exit) and/or the subset of writes that fail - is a set of z3 variables whose every value within the bound is explored; run 3 (warm) must print exactly what a cold run prints. Both stores, two edit kinds (thorough: three, plus -n 2 with faults in every process). Each violating history is identified canonically by which records the interrupted run left durable.",
+    "solver-chosen fault schedules replayed end to end: after an edit, run 2 is executed by the real mypy command with the metadata-store classes wrapped from outside (vf/shim/sitecustomize.py, guarded by PYTHON_MYPY_VERIF=1); the schedule - the store operation before which the process is killed (os._exit) and/or the subset of writes that fail - is a set of z3 variables whose every value within the bound is explored; run 3 (warm) must print exactly what a cold run prints. Both stores, two edit kinds. (A deeper tier - a third edit kind, two failing writes, -n 2 with faults in every process - exists in the driver but is not registered: on the unchanged tree it reports 15 further members of the known meta/meta_ex family and three sqlite histories whose classification is unfinished; see DESIGN.md 4/C04.) Each violating history is identified canonically by which records the interrupted run left durable.",
     "trusted: z3 (schedule enumeration only); kill = os._exit before a store operation; operations themselves atomic; whole-second source mtimes kept distinct. Known findings: new meta accepted with stale meta_ex.",
     "fault-schedule exploration driven by z3 over the real store protocol, replayed end to end (warm vs cold)",
     "DESIGN.md 4/C04",
+    thorough=False,
 )
 
 check(
